@@ -677,6 +677,24 @@ def run(ctx):
                     if eff:
                         cases.add(lab.case)
             sw[fn.name] = (cases, fn)
+    # R4d the element capacities are collected over the same elements the count covers: live + cleared
+    for fn in fb.find(pred=lambda f: f.record == FAM and f.has_cfg() and f.name == "update_repeated_field"):
+        ig = IG(fn, inline=nin)
+        live = ig.live_nodes()
+        ups = [n for n in ig.ev_nodes() if n.id in live and n.ev["e"] == "call" and n.ev.get("name") == "update" and n.ev.get("rec") == FAM]
+        cmps = [n for n in ig.ev_nodes() if n.id in live and n.ev["e"] == "call" and n.ev.get("name") in ("operator!=", "operator<", "operator==")]
+
+        def cleared(d):
+            return isinstance(d, dict) and d.get("k") == "e" and ig.ev_of(d) is not None and ig.ev_of(d).ev.get("name") == "ClearedCount"
+        for u_ in ups:
+            ctl = [c_ for c_ in cmps if u_.id not in ig.reach([ig.entry], removed_edges=L.result_edges(ig, set([c_.id]), True, live))]
+            ok = any(L.deep_find(ig, x, cleared, through_args=True) is not None
+                     for c_ in ctl for x in [ig.rthis(c_)] + [ig.rarg(c_, i) for i in range(len(c_.ev.get("args", [])))] if x is not None)
+            n4 += 1
+            ctx.ob("C12.R4d", "FieldAllocationMetadata::update_repeated_field@%s" % u_.line, bool(ctl) and ok, u_.where,
+                   "the capacities of the elements of a repeated string / message field are collected in a walk that is not bounded by "
+                   "size() + ClearedCount(): elements that Clear() kept alive behind size() hold the largest buffers of the cycle, and "
+                   "re-creation then rebuilds them too small", site="update_repeated_field@covers-cleared-elements")
     if "update_repeated_field" in sw and "reserve_repeated_field" in sw:
         n4 += 1
         u, r_ = sw["update_repeated_field"][0], sw["reserve_repeated_field"][0]
@@ -684,7 +702,7 @@ def run(ctx):
                sw["reserve_repeated_field"][1].loc,
                "every repeated-field kind whose capacity is recorded must be reserved on re-creation and vice versa: recorded %s, "
                "reserved %s" % (sorted(u - r_), sorted(r_ - u)))
-    ctx.floor("C12.R4", n4, 10, "allocation-metadata producers and consumers")
+    ctx.floor("C12.R4", n4, 12, "allocation-metadata producers and consumers")
 
     # ---------------------------------------------------------------- R6 reconstruct dispatch
     n6 = 0
